@@ -399,6 +399,12 @@ def build_problem(case):
   return vz.ProblemStatement(search_space=space, metric_information=mi)
 
 
+def _values(case, evalrng, tid):
+  if case['mcls'] == 'sin5':
+    return [math.sin(5 * tid)] * len(case['metrics'])
+  return _metric_values(evalrng, case['mcls'], len(case['metrics']))
+
+
 def _measurement(case, values):
   from vizier import pyvizier as vz
   return vz.Measurement(
@@ -621,13 +627,13 @@ def run_designer(ctx, case):
       except Exception as e:  # pylint: disable=broad-except
         return checked, _refused(ctx, case, 'to_trial', e)
       fate = rnd['fates'][k % len(rnd['fates'])]
-      _complete(case, t, fate, _metric_values(evalrng, case['mcls'], len(case['metrics'])))
+      _complete(case, t, fate, _values(case, evalrng, t.id))
       trials.append(t)
       if fate != 'A':
         fresh.append(t)
     if rnd['late']:
       for t in active:
-        _complete(case, t, 'C', _metric_values(evalrng, case['mcls'], len(case['metrics'])))
+        _complete(case, t, 'C', _values(case, evalrng, t.id))
         fresh.append(t)
     for e in rnd['extra']:
       t = vz.Trial(id=len(trials) + 1, parameters=e['p'])
@@ -697,10 +703,10 @@ def run_policy(ctx, case):
       check_params(ctx, case, t.parameters, ph, f'round {rnd_i} item {k}', t.metadata)
       checked += 1
       fate = rnd['fates'][k % len(rnd['fates'])]
-      _complete(case, t, fate, _metric_values(evalrng, case['mcls'], len(case['metrics'])))
+      _complete(case, t, fate, _values(case, evalrng, t.id))
     if rnd['late']:
       for t in active:
-        _complete(case, t, 'C', _metric_values(evalrng, case['mcls'], len(case['metrics'])))
+        _complete(case, t, 'C', _values(case, evalrng, t.id))
     extra = []
     for e in rnd['extra']:
       t = vz.Trial(parameters=e['p'])
@@ -796,7 +802,7 @@ def run_service(ctx, case):
       try:
         if fate == 'C':
           tc.complete(_measurement(
-              case, _metric_values(evalrng, case['mcls'], len(case['metrics']))))
+              case, _values(case, evalrng, t.id)))
         elif fate == 'I':
           tc.complete(infeasible_reason='harness: infeasible')
       except Exception as e:  # pylint: disable=broad-except
@@ -927,16 +933,39 @@ _GP_PLAN = [
     ('GAUSSIAN_PROCESS_BANDIT', 'designer', None),
     ('GP_UCB_PE', 'policy', 'DEFAULT'),
     ('GAUSSIAN_PROCESS_BANDIT', 'service', 'GAUSSIAN_PROCESS_BANDIT'),
-    ('GP_UCB_PE', 'designer', 'noisy-labels'),
+    ('GP_UCB_PE', 'designer', 'witness'),
     ('GAUSSIAN_PROCESS_BANDIT', 'policy', 'GAUSSIAN_PROCESS_BANDIT'),
     ('GP_UCB_PE', 'service', 'GP_UCB_PE'),
     ('GAUSSIAN_PROCESS_BANDIT', 'designer', None),
+    ('GP_UCB_PE', 'designer', 'noisy-labels'),
 ]
+
+# The shrunk witness of mechanism `all-continuous-parameters-missing:GP_UCB_PE:
+# model` (see proposed/C03-*.md), kept as a fixed narrow class so that the
+# finding (or its repair) is observed on every run, not only when a random
+# case happens to fit a low signal-to-noise ratio.
+_WITNESS = {
+    'route': 'designer', 'algo': 'GP_UCB_PE', 'name': 'GP_UCB_PE',
+    'desc': [
+        {'name': 'x', 'kind': 'DOUBLE', 'lo': 0.0, 'hi': 1.0, 'scale': None, 'default': None},
+        {'name': 'k', 'kind': 'DOUBLE', 'lo': 3.0, 'hi': 3.0, 'scale': None, 'default': None}],
+    'metrics': [{'name': 'obj', 'goal': 'MAXIMIZE'}],
+    'opts': {'max_evaluations': 75000, 'num_seed_trials': 1, 'padding': False,
+             'set_acquisition': False},
+    'history': [], 'mcls': 'sin5', 'seed': 1, 'negative': False,
+    'rounds': [{'count': 1, 'fates': ['C'] * 8, 'extra': [], 'late': False}] * 3,
+}
 
 
 def gp_case(ctx, j):
   algo, route, name = _GP_PLAN[j % len(_GP_PLAN)]
   rng = ctx.rng(j, 'gp')
+  if name == 'witness':
+    if j < len(_GP_PLAN):
+      import copy
+      ctx.count('gp_witness_class_run')
+      return copy.deepcopy(_WITNESS)
+    name = 'noisy-labels'
   if name == 'noisy-labels':
     # class: labels that are pure noise (low fitted signal-to-noise ratio), no
     # history, one suggestion per round: the model phase starts at round 1.
@@ -992,7 +1021,7 @@ def run_shard(ctx):
         ctx.sample({k: case[k] for k in ('route', 'name', 'desc', 'opts', 'rounds')})
     if ctx.nshards > 1:
       return
-  n_cases = 2900 if quick else 90000
+  n_cases = 3400 if quick else 90000
   n_seed = 600 if quick else 12000
   for i in range(n_seed):
     if i % n_cheap != (cheap_rank or 0):
